@@ -64,14 +64,21 @@ def is_small_dyadic(f: Fraction) -> bool:
 # ------------------------------------------------------------------------------------------ generators
 
 
-def gen_det(r, need_even=False, small=False, dy=True):
+KINDS = ["ccd", "cmos", "mkid", "apd"]
+KIND_CLASS = {"ccd": "CCD", "cmos": "CMOS", "mkid": "MKID", "apd": "APD"}
+# dark_current_rule07 refuses anything but a CCD / CMOS (TypeError): a documented restriction of that model
+RULE07_KINDS = ["ccd", "cmos"]
+ROUTES = ["ctor", "set_times", "set_start", "set_both", "set_nd", "replace", "replace_times", "file", "string"]
+
+
+def gen_det(r, need_even=False, small=False, dy=True, kind=None, kinds=KINDS):
     hi = 4 if small else 8
     rows, cols = r.randrange(1, hi + 1), r.randrange(1, hi + 1)
     if r.random() < 0.5:  # bias towards small detectors (cost), the full 1..8 x 1..8 range stays reachable
         rows, cols = min(rows, r.randrange(1, 4)), min(cols, r.randrange(1, 5))
     if need_even:
         rows, cols = rows + rows % 2, cols + cols % 2
-    d = dict(kind=r.choice(["ccd", "ccd", "cmos"]), rows=rows, cols=cols, pv=H(r.choice([10.0, 15.0, 18.0])),
+    d = dict(kind=kind or r.choice(kinds), rows=rows, cols=cols, pv=H(r.choice([10.0, 15.0, 18.0])),
              ph=H(r.choice([10.0, 12.0])), temperature=H(r.choice([150.0, 200.0, 250.0, 300.0])),
              qe=H(r.choice([1.0, 0.5, 0.75])))
     # read-out chain (enters load_image(convert_to_photons=True) through system_gain); powers of two in the exact stream
@@ -214,8 +221,8 @@ def gen_model(r, kind, det, dy, variant=None):
     return m
 
 
-def gen_pipeline(r, dy, kinds=None):
-    """(det, models in pipeline order).  kinds = the rate models to use (else random)."""
+def gen_pipeline(r, dy, kinds=None, det_kind=None):
+    """(det, models in pipeline order).  kinds = the rate models to use (else random); det_kind = detector type."""
     if kinds is None:
         nph = r.choice([0, 1, 1, 2, 2, 3])
         kinds = [r.choice(PHOTON_KINDS) for _ in range(nph)]
@@ -223,7 +230,10 @@ def gen_pipeline(r, dy, kinds=None):
         kinds += [k for k in CHARGE_KINDS if r.random() < (0.45 if k != "dark_current_rule07" else 0.2)]
         if not kinds:
             kinds = [r.choice(RATE_MODELS)]
-    det = gen_det(r, need_even="stripe" in kinds, small=not dy, dy=dy)   # non-dyadic rationals are long: keep them few
+    if det_kind is not None and det_kind not in RULE07_KINDS:
+        kinds = [k for k in kinds if k != "dark_current_rule07"] or ["dark_current"]
+    det = gen_det(r, need_even="stripe" in kinds, small=not dy, dy=dy, kind=det_kind,   # non-dyadic rationals are long: keep them few
+                  kinds=RULE07_KINDS if "dark_current_rule07" in kinds else KINDS)
     ph = [gen_model(r, k, det, dy) for k in kinds if k in PHOTON_KINDS]
     gen = [gen_model(r, k, det, dy) for k in kinds if k in CHARGE_KINDS]
     if ph:
@@ -279,11 +289,30 @@ def rate_kind(m):
             "dark_current_rule07": "dark_current_rule07", "usaf_illumination": "usaf"}.get(k)
 
 
-def exposure_payload(det, models, start, times, nd, entry=None):
+def exposure_payload(det, models, start, times, nd, entry=None, route=None, dirty=None):
     p = dict(kind="exposure", det=det, models=models, start=H(start), times=[H(t) for t in times], nd=bool(nd))
     if entry == "exposure_mode":     # the deprecated public entry point (own copy of the readout loop)
         p["entry"] = entry
+    if route not in (None, "ctor"):  # how the Readout object gets its schedule (constructor unless said otherwise)
+        p["route"] = route
+    if dirty is not None:            # the detector object holds data from earlier use
+        p["dirty"] = H(dirty)
     return p
+
+
+def arithmetic(start, times):
+    return len(times) == 1 or len({b - a for a, b in zip(times, times[1:])}) == 1
+
+
+def gen_route(r, times, p_ctor=0.5):
+    """A way of establishing the schedule; the textual range form only for equally spaced times."""
+    if r.random() < p_ctor:
+        return None
+    return r.choice([x for x in ROUTES[1:] if x != "string" or arithmetic(None, times)])
+
+
+def gen_dirty(r):
+    return r.choice([5.0, 3.0, 0.5, 64.0]) if r.random() < 0.35 else None
 
 
 def gen_entry(r):
@@ -615,6 +644,33 @@ def emit_rate_file(lits) -> str:
             "Eval vm_compute in rate_mismatches rate_table cases.\nEval vm_compute in rate_illposed rate_table cases.\n")
 
 
+def build_life(item, res):
+    """detector.empty(arg) on a real detector of one type: which of photon / charge / pixel were emptied."""
+    p = item["payloads"][0]
+    cls = res.get("cls")
+    if not isinstance(cls, str):
+        raise ValueError(f"no detector class reported: {res}")
+    if "raise" in res:
+        obs = "None"
+    else:
+        b = res.get("buckets") or {}
+        if any(b.get(k) not in ("emptied", "kept") for k in ("photon", "charge", "pixel")):
+            raise ValueError(f"a bucket is neither emptied nor kept after detector.empty: {b}")
+        obs = "(Some (" + ", ".join(core.cbool(b[k] == "emptied") for k in ("photon", "charge", "pixel")) + "))"
+    arg = "EDefault" if p["arg"] == "default" else f"(EBool {core.cbool(bool(p['arg']))})"
+    return f"{{| lf_class := {core.cstr(cls)}; lf_arg := {arg}; lf_obs := {obs} |}}"
+
+
+LIFE_HEADER = ("From Coq Require Import QArith List String.\nFrom PyxelV Require Import Model.Flux Model.FluxDet.\n"
+               "From PyxelGen Require Import Gen_C17.\nImport ListNotations.\nOpen Scope string_scope.\n")
+
+
+def emit_life_file(lits) -> str:
+    body = ";\n  ".join(lits)
+    return (LIFE_HEADER + f"Definition cases : list life_case := [\n  {body}\n].\n"
+            "Eval vm_compute in life_mismatches det_table cases.\nEval vm_compute in life_violations cases.\n")
+
+
 HEADER = ("From Coq Require Import QArith List.\nFrom PyxelV Require Import Model.Flux.\n"
           "Import ListNotations.\nOpen Scope Q_scope.\n")
 
@@ -633,7 +689,8 @@ def call_items(ctx, r, n_extra, dy):
     items = []
     for kind in RATE_MODELS:
         for variant in list(VARIANTS[kind]) + [None] * n_extra:
-            det = gen_det(r, need_even=(kind == "stripe"), small=True, dy=dy)
+            det = gen_det(r, need_even=(kind == "stripe"), small=True, dy=dy,
+                          kinds=RULE07_KINDS if kind == "dark_current_rule07" else KINDS)
             m = gen_model(r, kind, det, dy, variant)
             n = det["rows"] * det["cols"]
             steps = []
@@ -671,9 +728,20 @@ def call_items(ctx, r, n_extra, dy):
 def exposure_items(ctx, r, n_pair, n_scale, n_single, dy, kinds_list=()):
     items = []
     kinds_iter = list(kinds_list)
+    det_kinds = []
 
     def pipe():
-        return gen_pipeline(r, dy, kinds_iter.pop() if kinds_iter else None)
+        # the detector types in turn (shuffled per round), so that every type meets every kind of case
+        if not det_kinds:
+            det_kinds.extend(r.sample(KINDS, len(KINDS)))
+        ks = kinds_iter.pop() if kinds_iter else None
+        dk = det_kinds.pop()
+        if ks is not None and "dark_current_rule07" in ks and dk not in RULE07_KINDS:
+            dk = r.choice(RULE07_KINDS)
+        return gen_pipeline(r, dy, ks, dk)
+
+    def payload(det, models, start, times, nd):
+        return exposure_payload(det, models, start, times, nd, gen_entry(r), gen_route(r, times), gen_dirty(r))
 
     for _ in range(n_pair):
         det, models = pipe()
@@ -684,10 +752,10 @@ def exposure_items(ctx, r, n_pair, n_scale, n_single, dy, kinds_list=()):
         # several splittings of the same total: a random one, a second one, a fine one and the single readout
         ta = gen_partition(r, dy, start, end, r.randrange(2, 13))
         others = [gen_partition(r, dy, start, end, r.choice([2, 3, 5, 8])), gen_partition(r, dy, start, end, 12), [end]]
-        pa = exposure_payload(det, models, start, ta, True, gen_entry(r))
+        pa = payload(det, models, start, ta, True)
         items.append(dict(type="exp", dy=dy, payloads=[pa]))
         for tb in others:
-            pb = exposure_payload(det, models, start, tb, True, gen_entry(r))
+            pb = payload(det, models, start, tb, True)
             items += [dict(type="exp", dy=dy, payloads=[pb]), dict(type="pair", dy=dy, payloads=[pa, pb])]
     for _ in range(n_scale):
         det, models = pipe()
@@ -703,15 +771,71 @@ def exposure_items(ctx, r, n_pair, n_scale, n_single, dy, kinds_list=()):
                 tb.append(t)
             if tb[0] != 0.0:
                 break
-        pa = exposure_payload(det, models, sa, ta, False, gen_entry(r))
-        pb = exposure_payload(det, models, sb, tb, False, gen_entry(r))
+        pa = payload(det, models, sa, ta, False)
+        pb = payload(det, models, sb, tb, False)
         items += [dict(type="exp", dy=dy, payloads=[pa]), dict(type="exp", dy=dy, payloads=[pb])]
         if dy:  # with non-dyadic times the scaled steps are not exactly c times the steps: no exact premise
             items.append(dict(type="scale", dy=dy, c=H(c), payloads=[pa, pb]))
     for _ in range(n_single):
         det, models = pipe()
         s, ts = gen_times(r, dy)
-        items.append(dict(type="exp", dy=dy, payloads=[exposure_payload(det, models, s, ts, r.random() < 0.5, gen_entry(r))]))
+        if dy and r.random() < 0.3:      # an equally spaced schedule (what the textual range form can express)
+            d, n = gen_increment(r, dy), len(ts)
+            s = s if s + d != 0.0 else s + 0.25
+            ts = [s + d * (i + 1) for i in range(n)]
+        items.append(dict(type="exp", dy=dy, payloads=[payload(det, models, s, ts, r.random() < 0.5)]))
+    return items
+
+
+def matrix_items(r):
+    """On EVERY run: every detector type x both readout modes x both entry points (a 3-way split against the single
+    readout in non-destructive mode, a scaled schedule in destructive mode), alternately on a clean detector and on
+    one that holds data from earlier use; every route of establishing the schedule in both modes; and
+    detector.empty(default / True / False) called directly on every detector type."""
+    items = []
+    flip = 0
+    for kind in KINDS:
+        for entry in (None, "exposure_mode"):
+            det, models = gen_pipeline(r, True, [r.choice(["ill_uniform", "load_charge", "dark_current", "load_image"])], kind)
+            start = gen_start(r, True)
+            end = start + r.randrange(8, 49) / 8.0
+            end = end + 1.0 if end == 0.0 else end
+            ta, tb = gen_partition(r, True, start, end, 3), [end]
+            flip += 1
+            pa = exposure_payload(det, models, start, ta, True, entry, None, 5.0 if flip % 2 else None)
+            pb = exposure_payload(det, models, start, tb, True, entry, None, None if flip % 2 else 3.0)
+            items += [dict(type="exp", dy=True, payloads=[pa]), dict(type="exp", dy=True, payloads=[pb]),
+                      dict(type="pair", dy=True, payloads=[pa, pb])]
+            sa, tsa = gen_times(r, True, n=3)
+            c = r.choice([2.0, 0.5, 3.0])
+            while True:
+                sb = gen_start(r, True)
+                tsb, prev, t = [], sa, sb
+                for x in tsa:
+                    t = t + c * (x - prev)
+                    prev = x
+                    tsb.append(t)
+                if tsb[0] != 0.0:
+                    break
+            qa = exposure_payload(det, models, sa, tsa, False, entry, None, None if flip % 2 else 5.0)
+            qb = exposure_payload(det, models, sb, tsb, False, entry, None, 3.0 if flip % 2 else None)
+            items += [dict(type="exp", dy=True, payloads=[qa]), dict(type="exp", dy=True, payloads=[qb]),
+                      dict(type="scale", dy=True, c=H(c), payloads=[qa, qb])]
+    for route in ROUTES:
+        for nd in (True, False):
+            det, models = gen_pipeline(r, True, [r.choice(["ill_uniform", "load_charge"])])
+            s = gen_start(r, True)
+            d, n = gen_increment(r, True), r.choice([2, 3, 4])
+            if route == "string":
+                s = s if s + d != 0.0 else s + 0.25
+                ts = [s + d * (i + 1) for i in range(n)]
+            else:
+                s, ts = gen_times(r, True, n=n, start=s)
+            items.append(dict(type="exp", dy=True, payloads=[exposure_payload(det, models, s, ts, nd, gen_entry(r), route)]))
+    for kind in KINDS:
+        for arg in ("default", True, False):
+            det = gen_det(r, small=True, kind=kind)
+            items.append(dict(type="life", dy=True, payloads=[dict(kind="life", det=det, arg=arg)]))
     return items
 
 
@@ -729,7 +853,7 @@ def corpus_items():
     out = []
     for f in sorted((core.VERIF / "harness" / "corpus" / "C17").glob("*.json")):
         c = json.loads(f.read_text())
-        if c.get("type") in ("exp", "pair", "scale", "inc", "lin", "rate") and c.get("payloads"):
+        if c.get("type") in ("exp", "pair", "scale", "inc", "lin", "rate", "life") and c.get("payloads"):
             out.append({k: c[k] for k in ("type", "dy", "payloads", "c", "refused", "name") if k in c})
     return out
 
@@ -772,6 +896,8 @@ def evaluate(ctx: Ctx, items, tag="c", per=30):
                 lits = [build_inc(it, rs[0])]
             elif it["type"] == "rate":
                 lits = [build_rate(it, rs[0])]
+            elif it["type"] == "life":
+                lits = [build_life(it, rs[0])]
             else:
                 lits = build_lin(it, rs[0])
         except Skip as ex:
@@ -785,9 +911,12 @@ def evaluate(ctx: Ctx, items, tag="c", per=30):
             recs.append(dict(item=it, lit=lit, results=rs, sub=j, mismatch=False, violation=False))
     files, chunks = {}, {}
     # keep files small: a case with many pixels and readouts is a long literal
-    for grp, emit in (("flux", emit_file), ("rate", emit_rate_file)):
+    def group_of(rec):
+        return rec["item"]["type"] if rec["item"]["type"] in ("rate", "life") else "flux"
+
+    for grp, emit in (("flux", emit_file), ("rate", emit_rate_file), ("life", emit_life_file)):
         cur, size, k = [], 0, 0
-        for rec in [x for x in recs if (x["item"]["type"] == "rate") == (grp == "rate")]:
+        for rec in [x for x in recs if group_of(x) == grp]:
             cur.append(rec)
             size += len(rec["lit"])
             if len(cur) >= per or size > 600_000:
@@ -819,6 +948,8 @@ def evaluate(ctx: Ctx, items, tag="c", per=30):
 
 def model_names(it):
     ps = it["payloads"][0]
+    if ps.get("kind") == "life":
+        return ["detector.empty"]
     ms = ps["models"] if "models" in ps else [ps["model"]]
     out = []
     for m in ms:
@@ -841,6 +972,8 @@ def clause_of(rec):
         if nm == "simple_collection":
             return "collection_not_accumulating"
         return "increment_differs_from_rate_times_step"
+    if t == "life":
+        return "bucket_lifecycle"
     if t == "pair":
         return "partition_dependent"
     if t == "scale":
@@ -856,15 +989,24 @@ def clause_of(rec):
 def describe(rec):
     it = rec["item"]
     p = it["payloads"][0]
+    kind = p["det"].get("kind", "ccd").upper()
+    if it["type"] == "life":
+        arg = "" if p["arg"] == "default" else str(bool(p["arg"]))
+        return f"{kind}.empty({arg}) on a detector whose photon, charge and pixel buckets hold data"
     if it["type"] in ("inc", "lin", "rate"):
         return (f"{p['model']['m']} called with time steps {[float.fromhex(s) for s in p['steps']]} on a "
-                f"{p['det']['rows']}x{p['det']['cols']} detector")
+                f"{p['det']['rows']}x{p['det']['cols']} {kind} detector")
+
+    def extras(q):
+        return ((" (pyxel.exposure_mode)" if q.get("entry") else "") + (f" schedule via {q['route']}" if q.get("route") else "")
+                + (" on a detector holding earlier data" if q.get("dirty") else ""))
+
     ts = [float.fromhex(t) for t in p["times"]]
-    s = (f"{'non-destructive' if p['nd'] else 'destructive'} exposure{' (pyxel.exposure_mode)' if p.get('entry') else ''} start={float.fromhex(p['start'])} times={ts} "
-         f"models={model_names(it)} on {p['det']['rows']}x{p['det']['cols']}")
+    s = (f"{'non-destructive' if p['nd'] else 'destructive'} exposure{extras(p)} start={float.fromhex(p['start'])} times={ts} "
+         f"models={model_names(it)} on {p['det']['rows']}x{p['det']['cols']} {kind}")
     if len(it["payloads"]) > 1:
         q = it["payloads"][1]
-        s += f" versus start={float.fromhex(q['start'])} times={[float.fromhex(t) for t in q['times']]}"
+        s += f" versus{extras(q)} start={float.fromhex(q['start'])} times={[float.fromhex(t) for t in q['times']]}"
     return s
 
 
@@ -878,6 +1020,8 @@ EXPECTED = {
     "destructive_not_proportional": "frames of the scaled schedule = c * frames",
     "nondestructive_closed_form": "pixel at readout i = (total rate) * (t_i - start)",
     "destructive_frame_closed_form": "frame i = (total rate) * (t_i - t_(i-1))",
+    "bucket_lifecycle": "detector.empty(reset) empties photon and charge, and pixel exactly when reset is True (default True), "
+                        "on every detector type",
     "valid_exposure_raised": "an accepted schedule with valid models runs",
     "invalid_schedule_accepted": "the schedule is refused",
 }
@@ -888,9 +1032,12 @@ def to_violation(rec) -> Violation:
     clause = clause_of(rec)
     res = rec["results"]
     obs = [{k: v for k, v in x.items() if k in ("pixel", "raise", "msg")} if it["type"] in ("exp", "pair", "scale")
-           else x["steps"] for x in res]
+           else ({k: v for k, v in x.items() if k in ("cls", "buckets", "raise", "msg")} if it["type"] == "life" else x["steps"])
+           for x in res]
     stream = "dyadic" if it.get("dy", True) else "nondyadic_tol1e-9"
     sig = dict(clause=clause, models=sorted(set(model_names(it))), stream=stream)
+    if it["type"] == "life":
+        sig["detector"] = it["payloads"][0]["det"].get("kind", "ccd")
     case = dict(type=it["type"], dy=it.get("dy", True), payloads=it["payloads"], sub=rec.get("sub", 0))
     for k in ("c", "refused", "name"):
         if k in it:
@@ -943,6 +1090,9 @@ def reductions(p):
                   dict(p, times=p["times"][:-1])]
     elif n == 2:
         cands.append(dict(p, times=p["times"][:1]))
+    for opt in ("route", "dirty", "entry"):    # the plain way of running it
+        if p.get(opt):
+            cands.append({k: v for k, v in p.items() if k != opt})
     t = tiny_payload(p)
     if t is not None:
         cands.append(t)
@@ -980,6 +1130,10 @@ def collect(ctx: Ctx, recs, shrink=True):
         it = rec["item"]
         if rec["violation"]:
             by_clause.setdefault(clause_of(rec), []).append(rec)
+        elif rec["mismatch"] and it["type"] == "life":
+            ctx.broken.append(Broken("correspondence", "translated bucket lifecycle (Gen_C17.det_table) vs implementation",
+                                     "what the table read from the source says detector.empty does differs from what it "
+                                     "did: " + describe(rec), dict(type=it["type"], payloads=it["payloads"])))
         elif rec["mismatch"] and it["type"] == "rate":
             ctx.broken.append(Broken("correspondence", "translated increment expression (Gen_C17.rate_table) vs implementation",
                                      "the expression read from the source, evaluated in Coq on the actual arguments, differs "
@@ -993,7 +1147,8 @@ def collect(ctx: Ctx, recs, shrink=True):
     # written by core.finish cover different clauses
     def size(rec):
         p = rec["item"]["payloads"][0]
-        return (len(p.get("models", [0])), len(p.get("times", p.get("steps", []))), p["det"]["rows"] * p["det"]["cols"])
+        return (len(p.get("models", [0])), len(p.get("times", p.get("steps", []))), p["det"]["rows"] * p["det"]["cols"],
+                1 if p.get("route") else 0, 1 if p.get("dirty") else 0)
     for cl in by_clause:
         by_clause[cl].sort(key=size)
     order = []
@@ -1020,7 +1175,15 @@ def coverage(ctx: Ctx, recs):
         ctx.dist("case_type", t)
         ctx.dist("stream", "dyadic_exact" if it.get("dy", True) else "nondyadic_tol_1e-9")
         p = it["payloads"][0]
+        if t == "life":
+            ctx.dist("detector_empty_called", f"{p['det'].get('kind')}.empty({'' if p['arg'] == 'default' else p['arg']})")
+            seen.add(json.dumps([t, it["payloads"]], sort_keys=True))
+            continue
         if t in ("exp", "pair", "scale"):
+            for q in it["payloads"]:
+                ctx.dist("detector_x_mode_x_entry", f"{q['det'].get('kind', 'ccd')}/{'nd' if q['nd'] else 'destr'}/{q.get('entry', 'run_mode')}")
+                ctx.dist("schedule_route", q.get("route", "ctor") + ("/nd" if q["nd"] else "/destr"))
+                ctx.dist("detector_state_before", "holds earlier data" if q.get("dirty") else "fresh")
             ctx.dist("readouts", len(p["times"]))
             ctx.dist("geometry", f"{p['det']['rows']}x{p['det']['cols']}")
             ctx.dist("mode", "non_destructive" if p["nd"] else "destructive")
@@ -1076,6 +1239,7 @@ def run(ctx: Ctx):
     q = ctx.quick
     items = corpus_items()
     ctx.cov["corpus_cases"] = len(items)
+    items += matrix_items(ctx.rng("matrix"))
     items += call_items(ctx, r, 2 if q else 12, True)
     items += call_items(ctx, ctx.rng("calls-nd"), 0 if q else 6, False)
     singles_and_full = [[k] for k in RATE_MODELS] + [list(RATE_MODELS)]
@@ -1105,6 +1269,8 @@ def run(ctx: Ctx):
         ctx.cov["coqchk"] = "ok" if ok else "FAILED"
         if not ok:
             ctx.broken.append(Broken("theorem", "coqchk of Properties/C17.v", core.tail(out, 20)))
+    if not proof_ok:
+        rejected_lifecycle(ctx)
     if ctx.broken and not new_violations(ctx):
         search(ctx, focus=[] if proof_ok else rejected_rows(ctx))
 
@@ -1123,8 +1289,30 @@ def translator_leg(ctx: Ctx) -> bool:
     ctx.cov["translator"] = dict(time_readers=len(st["readers"]), integrating_models=len(st["integrating"]),
                                  expression_shaped=len(st["expr_models"]), excluded_models=len(st["excluded"]),
                                  rate_table_rows=len(st["rows"]),
-                                 deterministic_rows=sum(1 for x in st["rows"] if not x.get("random")))
+                                 deterministic_rows=sum(1 for x in st["rows"] if not x.get("random")),
+                                 detector_classes=[c["name"] + ("" if c["empty"] is None else " (own empty)") for c in st["family"]],
+                                 readout_loops=[lp["name"] for lp in st["loops"]])
+    known = set(KIND_CLASS.values()) | {"Detector"}
+    ctx.cov["detector_classes_not_exercised"] = sorted(c["name"] for c in st["family"] if c["name"] not in known)
     return core.proof_leg(ctx, {"Gen_C17.v": tr.render(st)}, PROP_FILE)
+
+
+def rejected_lifecycle(ctx: Ctx):
+    """Log the detector classes / readout loops of the regenerated tables that the lifecycle check rejects."""
+    text = ("From Coq Require Import List.\nFrom PyxelV Require Import Model.FluxDet.\n"
+            "From PyxelGen Require Import Gen_C17.\nEval vm_compute in bad_classes det_table.\n"
+            "Eval vm_compute in bad_loops det_table loop_table.\n")
+    ok, evals, se = core.coq_eval(ctx, "bad_lifecycle", text)
+    if not ok or len(evals) != 2:
+        return
+    import re
+
+    names = [re.findall(r'"([^"]*)"', e) for e in evals]
+    for n in names[0]:
+        ctx.log(f"detector class rejected: {n}.empty(reset) does not (empty photon and charge, and pixel exactly when reset)")
+    for n in names[1]:
+        ctx.log(f"readout loop rejected: {n} does not (reset the detector before the loop and pass reset = destructive inside)")
+    ctx.cov["rejected_lifecycle"] = dict(classes=names[0], loops=names[1])
 
 
 def rejected_rows(ctx: Ctx):
@@ -1217,7 +1405,7 @@ def replay(ctx: Ctx, rp: dict) -> int:
         print(rp.get("detail", ""))
         return 1
     core.ensure_lib(ctx, targets=core.lib_targets_of([(core.THEORIES / PROP_FILE).read_text()]))
-    if case.get("type") == "rate":
+    if case.get("type") in ("rate", "life"):
         translator_leg(ctx)
     it = copy.deepcopy(case)
     recs = evaluate(ctx, [it], tag="replay")
